@@ -280,3 +280,74 @@ Proof.
   replace (Rmax 0 (1 - 3 / 4)) with (1 / 4) by (unfold Rmax; destruct Rle_dec; lra).
   lra.
 Qed.
+
+(* non-negativity needs only that Phi is NON-DECREASING (no range assumption): kernel = gaussian with a scalar
+   sigma or a 2x2 sigma with zero covariance, kernel model of C13 (either reading of line 173) *)
+Theorem image_nonneg_gaussian_monotone_Phi : forall thr Phi skew w k bp pp dgm,
+  (forall a b, a <= b -> Phi a <= Phi b) ->
+  match k with GaussScalar _ => True | GaussMatrix _ sxy _ => sxy = 0 | OtherKernel _ => False end ->
+  nondecr bp -> nondecr pp ->
+  (forall q, In q dgm -> 0 <= w (fst (bp_of skew q)) (snd (bp_of skew q))) ->
+  Forall (Forall (fun v => 0 <= v))
+         (transform_one Phi (ImageKernelM.gaussian_kernelM_gen thr Phi) skew w k bp pp dgm).
+Proof. exact ImageGlueP.image_nonneg_monotone. Qed.
+Print Assumptions image_nonneg_gaussian_monotone_Phi.
+
+(* ... hence, with C13's normal_cdf_integral_monotone, it holds with NO hypothesis on Phi for the objects the
+   ties of C04 / C11 run inside Coq (Corr/ImageCorr.v): PhiI = the normal CDF as an integral = BvnS.Phi_int,
+   KgI = the Gaussian kernel model on PhiI, KuI = the uniform kernel model *)
+From Persim Require Corr.ImageCorr Proofs.ImageGlueRunP.
+Theorem run_instances_are_kernel_models :
+  ImageCorr.KgI = ImageKernelM.gaussian_kernelM ImageCorr.PhiI /\
+  ImageCorr.KuI = ImageKernelM.uniform_kernelM /\
+  (forall x, ImageCorr.PhiI x = BvnS.Phi_int x).
+Proof. exact ImageGlueRunP.run_instances. Qed.
+Print Assumptions run_instances_are_kernel_models.
+
+Theorem image_nonneg_run_instance : forall skew w k bp pp dgm,
+  match k with GaussScalar _ => True | GaussMatrix _ sxy _ => sxy = 0 | OtherKernel _ => False end ->
+  nondecr bp -> nondecr pp ->
+  (forall q, In q dgm -> 0 <= w (fst (bp_of skew q)) (snd (bp_of skew q))) ->
+  Forall (Forall (fun v => 0 <= v)) (transform_one ImageCorr.PhiI ImageCorr.KgI skew w k bp pp dgm).
+Proof. exact ImageGlueRunP.image_nonneg_run. Qed.
+Print Assumptions image_nonneg_run_instance.
+
+(* non-vacuity: BvnS.Phi_int meets the monotonicity hypothesis (C13), GaussMatrix 1 0 2 the configuration one *)
+Example image_nonneg_gaussian_monotone_Phi_hyp_satisfiable :
+  (forall a b, a <= b -> BvnS.Phi_int a <= BvnS.Phi_int b) /\
+  match GaussMatrix 1 0 2 with GaussScalar _ => True | GaussMatrix _ sxy _ => sxy = 0 | OtherKernel _ => False end.
+Proof. split; [exact KernelP.Phi_int_mono|reflexivity]. Qed.
+
+(* H4: where the weight of ONE point goes.  On a consistent imager state, with kernel = images_kernels.uniform of
+   width, height <= 2 pixel sizes: a point lying in the square of pixel (i, j) contributes NOTHING to any pixel
+   outside the 3 x 3 block around (i, j); with uniform_mass_conserved_on_imager_state its whole weight is in that
+   block whenever its box lies inside the covered region *)
+Theorem uniform_point_localised_on_imager_state :
+  forall (s : ImagerM.state ImagerM.QNum) Phi Kgauss w width height (pt : point) i j i' j',
+  ImagerP.Inv s -> 0 < width -> 0 < height ->
+  width <= 2 * Q2R (ImagerM.psz s) -> height <= 2 * Q2R (ImagerM.psz s) ->
+  let ps := Q2R (ImagerM.psz s) in let b0 := Q2R (ImagerM.blo s) in let p0 := Q2R (ImagerM.plo s) in
+  b0 + INR i * ps <= fst pt < b0 + (INR i + 1) * ps -> p0 + INR j * ps <= snd pt < p0 + (INR j + 1) * ps ->
+  (Z.of_nat i' < ImagerM.resw s)%Z -> (Z.of_nat j' < ImagerM.resh s)%Z ->
+  (i' + 2 <= i \/ i + 2 <= i')%nat \/ (j' + 2 <= j \/ j + 2 <= j')%nat ->
+  nth j' (nth i' (transform_one Phi Kgauss false w (OtherKernel (ImageKernelM.uniform_kernelM width height))
+                    (map Q2R (ImagerM.bpnts s)) (map Q2R (ImagerM.ppnts s)) [pt]) []) 0 = 0.
+Proof. exact ImageGlueP.uniform_point_localised. Qed.
+Print Assumptions uniform_point_localised_on_imager_state.
+
+(* non-vacuity: on the constructor's 4 x 4 state (0,1) x (0,1), ps = 1/4, the point (3/8, 3/8) lies in pixel (1,1),
+   a 1/4 x 1/4 box is allowed, and pixel (3,0) is outside the block *)
+Example uniform_point_localised_hyp_satisfiable :
+  let s := (ImagerM.ctor ImagerM.QNum 0 1 0 1 (1 # 4))%Q in
+  ImagerP.Inv s /\ (ImagerM.resw s, ImagerM.resh s) = (4, 4)%Z /\
+  1 / 4 <= 2 * Q2R (ImagerM.psz s) /\
+  Q2R (ImagerM.blo s) + INR 1 * Q2R (ImagerM.psz s) <= 3 / 8 < Q2R (ImagerM.blo s) + (INR 1 + 1) * Q2R (ImagerM.psz s) /\
+  ((3 + 2 <= 1 \/ 1 + 2 <= 3)%nat \/ (0 + 2 <= 1 \/ 1 + 2 <= 0)%nat).
+Proof.
+  intros s.
+  assert (E0 : Q2R (ImagerM.blo s) = 0).
+  { transitivity (Q2R 0); [apply Qeq_eqR; vm_compute; reflexivity|apply ImageGlueP.Q2R_0g]. }
+  assert (E2 : Q2R (ImagerM.psz s) = 1 / 4) by (unfold Q2R; simpl; lra).
+  split; [apply ImagerP.ctor_inv; unfold Qlt, Qle; cbn; lia|].
+  split; [vm_compute; reflexivity|]. rewrite E0, E2. simpl INR. split; [lra|]. split; [lra|]. left. right. lia.
+Qed.
